@@ -100,6 +100,24 @@ class C04(Prop):
                 xp = tpl % (kf, v, f)
                 tag = "pred"
                 pred = {"form": form, "k": kf, "f": f, "v": v, "ppath": ["r"]}
+            if root == "dict" and rng.random() < 0.03:
+                # a '~' / '!~' condition over records one of which holds None (or a number) in the tested field: that record
+                # does not match, the others decide - the path resolves when one of them matches
+                kf, f = rng.choice(["note", "k1"]), rng.choice(["id", "f"])
+                recs = [{kf: "alpha", f: 1}, {kf: rng.choice([None, 5, True]), f: 2}, {kf: "beta", f: 3}]
+                rng.shuffle(recs)
+                t = {"r": recs, "a": t}
+                op, lit = rng.choice([("~", "alp"), ("~", "eta"), ("!~", "alp"), ("~", "a")])
+                xp, tag, pred = rng.choice(["r[%s%s%s]/%s", "r/[%s%s%s]/%s", "/r[*]/[%s%s%s]/%s"]) % (kf, op, lit, f), "resolves", None
+            if rng.random() < 0.03:
+                # a list-rooted container of records (plain dicts when it wraps raw data): '..' followed by a further step,
+                # explicit or hidden in a key predicate
+                recs = [{"id": str(n + 1), "v": rng.choice([5, "B", None]), "sub": {"k": n}} for n in range(rng.randint(1, 3))]
+                gi = rng.randrange(len(recs))
+                t, root = recs, "list"
+                xp = rng.choice(["[%d]/sub/../v" % gi, "[%d]/sub/../id" % gi, "[%d][id=%s]/id" % (gi, recs[gi]["id"]), "[*][id=%s]/id" % recs[gi]["id"],
+                                 "[%d]/sub[k=%d]/k" % (gi, gi)])
+                tag, pred, mode = "resolves", None, rng.choice(["wrap", "json", "convert"])
             if root == "dict" and rng.random() < 0.04:
                 # a list nested directly in a list, and a path that goes up again below it: g[i][j]/id/../v resolves
                 grid = [[{"id": rng.choice(["1", "x", 2]), "v": rng.choice([5, "B", None])} for _ in range(rng.randint(1, 2))]
